@@ -289,6 +289,78 @@ class Unit:
         for n in self.funcs: visit(n)
         return out
 
+# ---------------------------------------------------------------- attribute-routing methods (C16)
+# The three methods of GetSetDelAttrMixin depend on `name` only through a few predicates and end in one
+# of a few effects.  Predicates become boolean parameters, effects become returned tags; any other
+# construct is refused.
+ROUTE_PREDICATES = {
+    "hasattr(self.__class__, name)": 'P_member',
+    "name.startswith('_')": 'P_private',
+    "name in self.__metadata_exclude__": 'P_exclude',
+    "name in self.__metadata_include__": 'P_include',
+    "hasattr(type(self), 'dims')": 'P_hasdims',
+    "hasattr(type(self), 'axes')": 'P_hasaxes',
+    "name in self.dims": 'P_isdim',
+    "name in self.attrs.keys()": 'P_inattrs',
+}
+ROUTE_PARAMS = ['P_member', 'P_private', 'P_exclude', 'P_include', 'P_hasdims', 'P_hasaxes', 'P_isdim', 'P_inattrs']
+ROUTE_EFFECTS = {
+    "return object.__getattribute__(self, name)": 'class_member',
+    "return self.axes[name].values": 'axis_values',
+    "return self.attrs[name]": 'attrs_item',
+    "object.__setattr__(self, name, value)": 'object_setattr',
+    "self.axes[name][()] = value": 'axis_setvalues',
+    "self.attrs[name] = value": 'attrs_setitem',
+    "del self.attrs[name]": 'attrs_delitem',
+    "return object.__delattr__(self, name)": 'object_delattr',
+}
+
+class RouteRewriter(ast.NodeTransformer):
+    def visit_Compare(self, node):
+        txt = ast.unparse(node)
+        if txt in ROUTE_PREDICATES: return ast.copy_location(ast.Name(id=ROUTE_PREDICATES[txt], ctx=ast.Load()), node)
+        if ' not in ' in txt and txt.replace(' not in ', ' in ', 1) in ROUTE_PREDICATES:
+            return ast.copy_location(ast.UnaryOp(op=ast.Not(), operand=ast.Name(id=ROUTE_PREDICATES[txt.replace(' not in ', ' in ', 1)], ctx=ast.Load())), node)
+        return self.generic_visit(node)
+    def visit_Call(self, node):
+        txt = ast.unparse(node)
+        if txt in ROUTE_PREDICATES: return ast.copy_location(ast.Name(id=ROUTE_PREDICATES[txt], ctx=ast.Load()), node)
+        return self.generic_visit(node)
+
+def rewrite_route_method(f):
+    """FunctionDef of __getattr__/__setattr__/__delattr__ -> FunctionDef over the predicate parameters"""
+    def stmts(body, terminal):
+        out = []
+        for k, st in enumerate(body):
+            txt = ast.unparse(st)
+            if txt in ROUTE_EFFECTS:
+                if not txt.startswith('return') and not (terminal and k == len(body) - 1):
+                    fail(st, 'effect statement is not the last statement of its path')
+                out.append(ast.copy_location(ast.Return(value=ast.Constant(value=ROUTE_EFFECTS[txt])), st))
+            elif isinstance(st, ast.If):
+                new = ast.If(test=RouteRewriter().visit(st.test), body=stmts(st.body, terminal and k == len(body) - 1),
+                             orelse=stmts(st.orelse, terminal and k == len(body) - 1))
+                out.append(ast.copy_location(new, st))
+            elif isinstance(st, (ast.Pass, ast.Raise)) or (isinstance(st, ast.Expr) and isinstance(st.value, ast.Constant)):
+                out.append(st)
+            else:
+                fail(st, 'statement outside the attribute-routing subset')
+        return out
+    body = stmts(f.body, True)
+    args = ast.arguments(posonlyargs=[], args=[ast.arg(arg=p) for p in ROUTE_PARAMS], kwonlyargs=[], kw_defaults=[], defaults=[])
+    g = ast.FunctionDef(name=f.name, args=args, body=body, decorator_list=[], returns=None, type_comment=None, type_params=[])
+    ast.fix_missing_locations(g)
+    # nothing but the predicate parameters may remain (the message of a raise is not evaluated)
+    inside_raise = set()
+    for n in ast.walk(g):
+        if isinstance(n, ast.Raise):
+            for m in ast.walk(n): inside_raise.add(id(m))
+    for n in ast.walk(g):
+        if id(n) in inside_raise: continue
+        if isinstance(n, ast.Name) and n.id not in ROUTE_PARAMS: fail(n, 'free name in routing method')
+        if isinstance(n, (ast.Attribute, ast.Subscript, ast.Call)): fail(n, 'unresolved expression in routing method')
+    return g
+
 def load_functions(path, names, cls=None):
     tree = ast.parse(open(path).read())
     body = tree.body
@@ -307,6 +379,7 @@ UNITS = [
       'is_decreasing_equal', 'is_monotonic', 'is_monotonic_equal', '_locate_slice_strict', 'locate_slice']),
     ('cast', 'dimarray/core/indexing.py', None, ['_maybe_cast_type']),
     ('cast_kind', 'dimarray/core/axes.py', None, ['_get_cast_kind']),
+    ('attrs', 'dimarray/core/bases.py', 'GetSetDelAttrMixin', ['__getattr__', '__setattr__', '__delattr__']),
 ]
 
 HEADER = '''(* GENERATED by harness/py2coq.py from %s -- do not edit *)
@@ -320,7 +393,10 @@ def main():
     for out, src, cls, names in UNITS:
         target = os.path.join(VERIF, 'coq', 'Gen', out + '.v')
         try:
-            u = Unit(load_functions(os.path.join(REPO, src), names, cls))
+            funcs = load_functions(os.path.join(REPO, src), names, cls)
+            if out == 'attrs':
+                funcs = {n: rewrite_route_method(f) for n, f in funcs.items()}
+            u = Unit(funcs)
             text = HEADER % src + '\n'.join(u.function(n) for n in u.order())
         except Unsupported as e:
             sys.stderr.write('py2coq: %s: UNSUPPORTED: %s\n' % (src, e))
